@@ -114,7 +114,20 @@ def materialise(wd, d):
         for _ in range(r.get("copies", 1)):
             n += 1
             name = f"rd{n:05d}"
-            if r.get("gap"):
+            if r.get("tight") is not None:
+                # overlapping mates: mate 1 ends EXACTLY on the anchor base of the (insertion) site x, mate 2 covers x completely.
+                # Mate 1 alone cannot see the insertion (boundary read); the pair as a whole is an error-free copy.
+                x = r["tight"]
+                m1 = rng.randint(12, 18)
+                s_ = max(0, vs[r["first"]].pos - m1)
+                h1 = hp.read(hp.ref_to_hap(s_), hp.ref_to_hap(vs[x].pos) + 1)
+                p1, c1, s1 = h1
+                p2, c2, s2 = seg(x, r["last"])
+                reads.append({"name": name, "flag": 1 | 2 | 64 | 32, "ref": r["chrom"], "pos": p1, "cigar": W.cigar_str(c1), "seq": s1,
+                              "rg": "rg_" + r["sample"], "mate": {"ref": r["chrom"], "pos": p2}})
+                reads.append({"name": name, "flag": 1 | 2 | 128 | 16, "ref": r["chrom"], "pos": p2, "cigar": W.cigar_str(c2), "seq": s2,
+                              "rg": "rg_" + r["sample"], "mate": {"ref": r["chrom"], "pos": p1}})
+            elif r.get("gap"):
                 a, b = r["gap"]
                 p1, c1, s1 = seg(r["first"], a)
                 p2, c2, s2 = seg(b, r["last"])
